@@ -2,6 +2,7 @@ import SimilarVerif.Props.C01
 import SimilarVerif.Props.C08
 import SimilarVerif.Lemmas.Deadline
 import SimilarVerif.Lemmas.PatienceCost
+import SimilarVerif.Lemmas.PatiencePost
 /-!
 # C07 — deadline expiry at any point still yields a valid diff, promptly; it is plumbed
 
@@ -13,10 +14,10 @@ Proved here: validity and finish-once for every expiry point (LCS unconditionall
 Myers and Patience relative to the snake hypothesis). Second half of the file (Lemmas/Deadline.lean): "a deadline
 that never expires = no deadline" for every algorithm and the capture pipeline; LCS does no work after
 expiry; Myers makes at most 3·min(N,M) comparisons after the first expired probe; Patience entered with
-an expired deadline makes at most 5·min(N,M) + 4 comparisons (`patience_expired_at_start`).  Not yet a
-theorem (`…_partial`): the post-expiry bound for Patience when the deadline expires at a LATER probe (its
-hook runs Myers inside hook calls); it is established by the `deadline` suite: measured comparisons after
-expiry at every expiry point of every run.
+an expired deadline makes at most 5·min(N,M) + 4 comparisons (`patience_expired_at_start`); Patience with the
+deadline expiring at ANY probe — of the outer run, of a gap run inside a hook call, or of the tail run — makes
+at most 7·min(N,M) comparisons after the first probe that answered "exceeded" (`patience_post_expiry_bound`,
+last section; Lemmas/PatiencePost*.lean: a ghost-instrumented run records the world right after that probe).
 What no executable model can exhibit: real time (the virtual clock replaces `Instant::now() > deadline`).
 -/
 namespace SimilarVerif.C07
@@ -114,5 +115,81 @@ theorem myers_post_expiry_bound : type_of% @myersDiff_post_expiry := @myersDiff_
 the whole run — outer Myers run over the unique items, gap runs and tail run inside the hook — makes at most
 `5·min(N,M) + 4` comparisons and the clock stays expired. -/
 theorem patience_expired_at_start : type_of% @PatienceC.patience_expired_entry := @PatienceC.patience_expired_entry
+
+end SimilarVerif.C07
+
+namespace SimilarVerif.C07
+open SimilarVerif Spec DeadlineP PatiencePost
+
+/-- **Patience, expiry at ANY probe** (the recording hook, every `Env`, in-bounds ranges, EVERY initial world):
+the ghost-instrumented run `patienceDiffG … none w` (Lemmas/PatiencePostDefs.lean: the model run with a ghost
+`Option World` in the hook state that `DeadlineP.mark` sets to the world right after the first probe that
+answered "exceeded", wherever that probe happens: outer run, gap run inside a hook call, tail run) returns the
+same result, and its ghost `g'` satisfies `PostP`:
+`none` — no probe answered "exceeded" (`tm` unchanged);
+`some we` — `JustExpired we`, `we.probes = tm w` (= `w.probes + k + 1` if the call was entered with
+`clock = some k`: `we` is the world right after the `(k+1)`-th probe), `w.cmps ≤ we.cmps ≤ w'.cmps`,
+`w'.cmps ≤ we.cmps + 7 * min N M`, and the clock is expired at the end. -/
+theorem patience_post_expiry_bound : type_of% @PatiencePost.patience_post_expiry := @PatiencePost.patience_post_expiry
+
+/-- … for every hook that does not touch the world -/
+theorem patience_post_expiry_any_hook : type_of% @patience_post_expiry_gen := @patience_post_expiry_gen
+
+/-- … as a disjunction, with the weaker bound `8 * (N + M) + 8` spelled out -/
+theorem patience_post_expiry_disj : type_of% @patience_post_expiry_cases := @patience_post_expiry_cases
+
+/-- … entered with `clock = some k`: either at most `k` probes were made (and the clock still shows the
+rest), or at most `7 * min N M` comparisons are made after the `(k+1)`-th probe; `k = 0` is the situation of
+`patience_expired_at_start` (there: `5 * min N M + 4` from the entry, here: `7 * min N M` from the first probe) -/
+theorem patience_post_expiry_kth_probe : type_of% @patience_post_expiry_clock := @patience_post_expiry_clock
+
+/-- the ghost run is the model run: forgetting the ghost gives back `patienceDiff`, and it exists whenever
+`patienceDiff` returns (any hook, any initial ghost) -/
+theorem patience_ghost_run_erase : type_of% @patienceDiffG_erase := @patienceDiffG_erase
+theorem patience_ghost_run_total : type_of% @patienceDiffG_total := @patienceDiffG_total
+
+#print axioms patience_post_expiry_bound
+#print axioms patience_post_expiry_any_hook
+#print axioms patience_post_expiry_disj
+#print axioms patience_post_expiry_kth_probe
+#print axioms patience_ghost_run_erase
+#print axioms patience_ghost_run_total
+
+/-- non-vacuity: `[1,2,3,4]` vs `[4,3,2,1]`, the deadline allows 2 probes.  The hypotheses are met … -/
+example : InBounds (Env.ofSeqs #[1,2,3,4] #[4,3,2,1]) 0 4 0 4 := by
+  intro i j _ hi _ hj
+  have : i = 0 ∨ i = 1 ∨ i = 2 ∨ i = 3 := by omega
+  have : j = 0 ∨ j = 1 ∨ j = 2 ∨ j = 3 := by omega
+  rcases ‹i = 0 ∨ i = 1 ∨ i = 2 ∨ i = 3› with rfl | rfl | rfl | rfl <;>
+    rcases ‹j = 0 ∨ j = 1 ∨ j = 2 ∨ j = 3› with rfl | rfl | rfl | rfl <;> decide
+
+/-- … the model run returns after 4 probes and 10 comparisons … -/
+example : patienceDiff (Env.ofSeqs #[1,2,3,4] #[4,3,2,1]) recHook 0 4 0 4 {} { clock := some 2 } =
+    .ok (⟨[.op (.delete 0 4 0), .op (.insert 0 0 4), .finish], none, true⟩,
+      { clock := some 0, probes := 4, cmps := 10 }) := by rfl
+
+/-- … and the ghost run records the world right after the 3rd probe (the first that answered "exceeded"):
+8 comparisons had been made, 2 more follow (`≤ 7 * min 4 4`) -/
+example : patienceDiffG (Env.ofSeqs #[1,2,3,4] #[4,3,2,1]) recHook 0 4 0 4 {} none { clock := some 2 } =
+    .ok ((⟨[.op (.delete 0 4 0), .op (.insert 0 0 4), .finish], none, true⟩,
+      some { clock := some 0, probes := 3, cmps := 8 }), { clock := some 0, probes := 4, cmps := 10 }) := by rfl
+
+/-- the theorem applied to this run: the `we` branch is taken and `we` is that world -/
+example (hb : InBounds (Env.ofSeqs #[1,2,3,4] #[4,3,2,1]) 0 4 0 4) :
+    ∃ we : World, we = { clock := some 0, probes := 3, cmps := 8 } ∧ JustExpired we ∧
+      (10 : Nat) ≤ we.cmps + 7 * min (4 - 0) (4 - 0) := by
+  have hrun : patienceDiff (Env.ofSeqs #[1,2,3,4] #[4,3,2,1]) recHook 0 4 0 4 {} { clock := some 2, probes := 0, cmps := 0 } =
+      .ok (⟨[.op (.delete 0 4 0), .op (.insert 0 0 4), .finish], none, true⟩,
+        { clock := some 0, probes := 4, cmps := 10 }) := by rfl
+  have hg : patienceDiffG (Env.ofSeqs #[1,2,3,4] #[4,3,2,1]) recHook 0 4 0 4 {} none { clock := some 2, probes := 0, cmps := 0 } =
+      .ok ((⟨[.op (.delete 0 4 0), .op (.insert 0 0 4), .finish], none, true⟩,
+        some { clock := some 0, probes := 3, cmps := 8 }), { clock := some 0, probes := 4, cmps := 10 }) := by rfl
+  rcases patience_post_expiry_kth_probe _ 0 4 0 4 {} 2 0 0 _ _ (by omega) (by omega) hb hrun with
+    ⟨h, _⟩ | ⟨we, hg', h1, h2, h3, h4, h5, h6⟩
+  · simp at h
+  · rw [hg] at hg'
+    simp only [Except.ok.injEq, Prod.mk.injEq, Option.some.injEq, and_true, true_and] at hg'
+    subst hg'
+    exact ⟨_, rfl, ⟨{ clock := some 0, probes := 2, cmps := 8 }, rfl, rfl⟩, h5⟩
 
 end SimilarVerif.C07
